@@ -11,7 +11,7 @@ order, `s3 c b` any bucket - foreign objects and other cassettes included); `st.
 `st.view` how its filter reads stored metadata (decoded in memory / file; the raw JSON text on S3 - known finding K3).
 `Env` carries the external nondeterminism: `fnmatch`, `random.shuffle` (any permutation: `env.Fair`) and the
 `random.choice` stream (any).  `st.WF`: ids are `category/rest` with slash-free categories and pairwise distinct; the
-directory has one file per recording, named after its id (ids without `.`).
+directory has one file per recording, named after its id (ids may hold dots: F14).
 -/
 namespace Properties.C10
 open PlaybackModel.MetaFilter PlaybackModel.S3 PlaybackModel.Lookup
@@ -202,7 +202,27 @@ example : (Store.file (dirOf exSaved)).WF := by
   refine ⟨exSaved_wf, by decide, by decide, ?_⟩
   intro e he
   simp only [dirOf, exSaved, List.map_cons, List.map_nil, List.mem_cons, List.not_mem_nil, or_false] at he
-  rcases he with rfl | rfl | rfl <;> exact ⟨rfl, by decide⟩
+  rcases he with rfl | rfl | rfl <;> exact ⟨rfl, notAllDots_of_slash (by decide)⟩
+
+/-- a category with dots (a qualified class name): the file cassette's directory is well-formed and the lookup finds the
+recording (before F14 the listed name was cut at its first dot and this lookup raised `NoSuchRecording`) -/
+def exDotted : List Rec := [⟨"svc.v2.Invoice/u4", []⟩, ⟨"svc/u5", []⟩]
+
+theorem exDotted_wf : WFIds exDotted := by
+  intro r hr
+  simp only [exDotted, List.mem_cons, List.not_mem_nil, or_false] at hr
+  rcases hr with rfl | rfl
+  · exact ⟨"svc.v2.Invoice", "u4", by decide, by decide⟩
+  · exact ⟨"svc", "u5", by decide, by decide⟩
+
+example : (Store.file (dirOf exDotted)).WF := by
+  refine ⟨exDotted_wf, by decide, by decide, ?_⟩
+  · intro e he
+    simp only [dirOf, exDotted, List.map_cons, List.map_nil, List.mem_cons, List.not_mem_nil, or_false] at he
+    rcases he with rfl | rfl <;> exact ⟨rfl, notAllDots_of_slash (by decide)⟩
+
+example : list exEnv (Store.file (dirOf exDotted)) "svc.v2.Invoice" [] none false = .ok ["svc.v2.Invoice/u4"] := by rfl
+example : list exEnv (Store.file (dirOf exDotted)) "svc" [] none false = .ok ["svc/u5"] := by rfl
 
 def exCfg : Cfg := mkCfg "xmetadata" false false
 def exBucket : Bucket :=
